@@ -420,7 +420,7 @@ mod if_alloc {
             MutexType: RawMutex,
             T: 'static,
         {
-            inner: alloc::sync::Arc<
+            inner: alloc::sync::Weak<
                 GenericOneshotChannelSharedState<MutexType, T>,
             >,
         }
@@ -444,21 +444,28 @@ mod if_alloc {
             pub fn verif_snapshot(
                 &self,
                 tag_of: &dyn Fn(&T) -> u64,
-            ) -> crate::verif::Snapshot {
-                self.inner.channel.verif_snapshot(tag_of)
+            ) -> Option<crate::verif::Snapshot> {
+                let inner = self.inner.upgrade()?;
+                Some(inner.channel.verif_snapshot(tag_of))
             }
 
             /// `Debug` rendering of the shared state and of the channel state
-            pub fn verif_debug(&self) -> alloc::string::String
+            pub fn verif_debug(&self) -> Option<alloc::string::String>
             where
                 MutexType: core::fmt::Debug,
                 T: core::fmt::Debug,
             {
-                alloc::format!(
+                let inner = self.inner.upgrade()?;
+                Some(alloc::format!(
                     "{:?} {}",
-                    *self.inner,
-                    self.inner.channel.verif_debug()
-                )
+                    *inner,
+                    inner.channel.verif_debug()
+                ))
+            }
+
+            /// Number of owners (handles, futures, streams) of the shared state
+            pub fn verif_owners(&self) -> usize {
+                self.inner.strong_count()
             }
         }
 
@@ -470,7 +477,7 @@ mod if_alloc {
             /// Returns a reference to the shared channel state
             pub fn verif_shared(&self) -> VerifSharedOneshot<MutexType, T> {
                 VerifSharedOneshot {
-                    inner: self.inner.clone(),
+                    inner: alloc::sync::Arc::downgrade(&self.inner),
                 }
             }
         }
